@@ -140,7 +140,7 @@ func ruleR22() *Rule {
 				if fn.Parent() != nil || fn.Signature.Recv() == nil || !isNamed(fn.Signature.Recv().Type(), zapPkgPath, "vectorIndexCache") || len(fn.Blocks) == 0 || fn.Synthetic != "" {
 					continue
 				}
-				if res := fn.Signature.Results(); res.Len() > 0 && isFaissIndexPtr(res.At(0).Type()) {
+				if res := fn.Signature.Results(); res.Len() > 0 && (isFaissIndexPtr(res.At(0).Type()) || isIndexHandlePtr(res.At(0).Type())) {
 					handOut = append(handOut, fn)
 					isHandOut[fn] = true
 				}
@@ -220,6 +220,9 @@ func ruleR22() *Rule {
 					idx := returnedValue(ret, 0)
 					if isNilConst(idx) {
 						continue
+					}
+					if _, ns := errorOfReturn(ret); ns == nonNil && !isFaissIndexPtr(idx.Type()) {
+						continue // a handle by value: the failing exits hand out its zero value
 					}
 					okc := true
 					for _, ev := range pa.statesBefore(ret) {
@@ -584,6 +587,7 @@ func r22NoStaleSnapshot(c *RuleCtx) {
 			at    ssa.Instruction
 			entry ssa.Value
 			fld   string
+			hvar  *ssa.Alloc // the local struct variable a handle is kept in (nil otherwise)
 		}
 		readingOf := func(v ssa.Value) (reading, bool) {
 			switch x := v.(type) {
@@ -593,48 +597,114 @@ func r22NoStaleSnapshot(c *RuleCtx) {
 					return reading{}, false
 				}
 				if fld := resultField(call.Call.StaticCallee(), x.Index, 0); fld != "" {
-					return reading{call, root(call.Call.Args[0]), fld}, true
+					return reading{call, root(call.Call.Args[0]), fld, nil}, true
 				}
 			case *ssa.UnOp:
 				if sn, fld, base, ok := loadedField(x); ok && sn == "cacheEntry" {
-					return reading{x, root(base), fld}, true
+					return reading{x, root(base), fld, nil}, true
 				}
 			}
 			return reading{}, false
 		}
-		var bad []string
-		for _, ret := range returnsOf(fn) {
-			for i := range ret.Results {
-				rd, ok := readingOf(returnedValue(ret, i))
-				if !ok {
-					continue
-				}
-				n++
-				// a store to that field of that entry between the reading and the return
-				between := func(in ssa.Instruction) bool {
-					rb, ib, tb := rd.at.Block(), in.Block(), ret.Block()
-					after := (ib == rb && instrIndexIn(in) > instrIndexIn(rd.at)) || (ib != rb && reachesBlock(rb, ib) && rb.Dominates(ib))
-					before := ib == tb || reachesBlock(ib, tb)
-					return after && before
-				}
-				eachInstr(fn, func(_ *ssa.BasicBlock, in ssa.Instruction) {
-					switch x := in.(type) {
-					case *ssa.Store:
-						if sn, fl, base, ok := fieldOf(x.Addr); ok && sn == "cacheEntry" && fl == rd.fld && root(base) == rd.entry && between(in) {
-							bad = append(bad, fmt.Sprintf("%s: %s.%s is stored after it was read for the result handed out at %s", c.pos(in), "cacheEntry", rd.fld, c.pos(ret)))
+		// a handle built from the entry by a routine of the package (`entry.load(except)` returning a struct
+		// of the entry's index and maps): a reading of every entry field that routine reads
+		handleReadings := func(v ssa.Value) []reading {
+			if r := resolveLoadDeep(v); r != nil {
+				v = r
+			}
+			// a handle by value kept in a local struct variable whose fields are looked at
+			var hvar *ssa.Alloc
+			if u, ok := v.(*ssa.UnOp); ok && u.Op == token.MUL {
+				if al, ok := u.X.(*ssa.Alloc); ok && al.Referrers() != nil {
+					hvar = al
+					var only *ssa.Store
+					k := 0
+					for _, r := range *al.Referrers() {
+						if st, ok := r.(*ssa.Store); ok && st.Addr == ssa.Value(al) {
+							only = st
+							k++
 						}
-					case ssa.CallInstruction:
-						g := staticCallee(x)
-						if g == nil || !c.p.InZap(g) || in == rd.at {
-							return
+					}
+					if k == 1 {
+						v = only.Val
+					}
+				}
+			}
+			call, ok := root(v).(*ssa.Call)
+			if !ok {
+				if ex, isEx := root(v).(*ssa.Extract); isEx {
+					call, ok = ex.Tuple.(*ssa.Call)
+				}
+			}
+			if !ok || call == nil || len(call.Call.Args) == 0 || !isIndexHandlePtr(v.Type()) {
+				return nil
+			}
+			g := call.Call.StaticCallee()
+			if g == nil || !c.p.InZap(g) || len(g.Params) == 0 || !isNamedPtr(g.Params[0].Type(), "cacheEntry") {
+				return nil
+			}
+			flds := map[string]bool{}
+			var scan func(f *ssa.Function, d int)
+			scan = func(f *ssa.Function, d int) {
+				if f == nil || d > 2 || len(f.Blocks) == 0 {
+					return
+				}
+				eachInstr(f, func(_ *ssa.BasicBlock, in ssa.Instruction) {
+					if u, ok := in.(*ssa.UnOp); ok {
+						if sn, fld, _, ok := loadedField(u); ok && sn == "cacheEntry" {
+							flds[fld] = true
 						}
-						for ai, a := range x.Common().Args {
-							if root(a) == rd.entry && mayStore(g, ai, rd.fld, 0) && between(in) {
-								bad = append(bad, fmt.Sprintf("%s: %s completes cacheEntry.%s after it was read (%s) for the result handed out at %s", c.pos(in), funcShortName(g), rd.fld, c.pos(rd.at), c.pos(ret)))
-							}
+					}
+					if cs, ok := in.(ssa.CallInstruction); ok {
+						if h := staticCallee(cs); h != nil && c.p.InZap(h) && h != f {
+							scan(h, d+1)
 						}
 					}
 				})
+			}
+			scan(g, 0)
+			var out []reading
+			for fld := range flds {
+				out = append(out, reading{call, root(call.Call.Args[0]), fld, hvar})
+			}
+			return out
+		}
+		var bad []string
+		for _, ret := range returnsOf(fn) {
+			for i := range ret.Results {
+				var rds []reading
+				if rd, ok := readingOf(returnedValue(ret, i)); ok {
+					rds = append(rds, rd)
+				}
+				rds = append(rds, handleReadings(returnedValue(ret, i))...)
+				for _, rd := range rds {
+					n++
+					// a store to that field of that entry between the reading and the return
+					between := func(in ssa.Instruction) bool {
+						rb, ib, tb := rd.at.Block(), in.Block(), ret.Block()
+						after := (ib == rb && instrIndexIn(in) > instrIndexIn(rd.at)) || (ib != rb && reachesBlock(rb, ib) && rb.Dominates(ib))
+						before := ib == tb || reachesBlock(ib, tb)
+						return after && before
+					}
+					eachInstr(fn, func(_ *ssa.BasicBlock, in ssa.Instruction) {
+						switch x := in.(type) {
+						case *ssa.Store:
+							if sn, fl, base, ok := fieldOf(x.Addr); ok && sn == "cacheEntry" && fl == rd.fld && root(base) == rd.entry && between(in) {
+								bad = append(bad, fmt.Sprintf("%s: %s.%s is stored after it was read for the result handed out at %s", c.pos(in), "cacheEntry", rd.fld, c.pos(ret)))
+							}
+						case ssa.CallInstruction:
+							g := staticCallee(x)
+							if g == nil || !c.p.InZap(g) || in == rd.at {
+								return
+							}
+							for ai, a := range x.Common().Args {
+								if root(a) == rd.entry && mayStore(g, ai, rd.fld, 0) && between(in) && !refreshedAfter(fn, rd.hvar, rd.entry, rd.fld, in) {
+									bad = append(bad, fmt.Sprintf("%s: %s completes cacheEntry.%s after it was read (%s) for the result handed out at %s", c.pos(in), funcShortName(g), rd.fld, c.pos(rd.at), c.pos(ret)))
+								}
+							}
+						}
+					})
+				}
 			}
 		}
 		if len(bad) > 0 {
@@ -771,4 +841,59 @@ func keyedMemoFields(p *Program, et string) map[string]bool {
 		}
 	}
 	return out
+}
+
+// isIndexHandlePtr: a pointer to a struct of the package that carries a native index among its fields and
+// is not a cache entry — what a cache method hands out when its several results were folded into one value.
+func isIndexHandlePtr(t types.Type) bool {
+	if pt, ok := t.Underlying().(*types.Pointer); ok {
+		t = pt.Elem()
+	}
+	nt, ok := types.Unalias(t).(*types.Named)
+	if !ok || nt.Obj().Pkg() == nil || nt.Obj().Pkg().Path() != zapPkgPath {
+		return false
+	}
+	for _, et := range cacheEntryTypes {
+		if nt.Obj().Name() == et {
+			return false
+		}
+	}
+	st, ok := nt.Underlying().(*types.Struct)
+	if !ok {
+		return false
+	}
+	for i := 0; i < st.NumFields(); i++ {
+		if isFaissIndexPtr(st.Field(i).Type()) {
+			return true
+		}
+	}
+	return false
+}
+
+// refreshedAfter: after instruction `at`, the field of the handle variable hvar is assigned again from the
+// entry's field fld (`rv.docVecIDMap = entry.docVecIDMap` once the entry was completed).
+func refreshedAfter(fn *ssa.Function, hvar *ssa.Alloc, entry ssa.Value, fld string, at ssa.Instruction) bool {
+	if hvar == nil {
+		return false
+	}
+	found := false
+	eachInstr(fn, func(b *ssa.BasicBlock, in ssa.Instruction) {
+		st, ok := in.(*ssa.Store)
+		if !ok || found {
+			return
+		}
+		fa, ok := st.Addr.(*ssa.FieldAddr)
+		if !ok || fa.X != ssa.Value(hvar) {
+			return
+		}
+		sn, f2, base, ok := loadedField(st.Val)
+		if !ok || sn != "cacheEntry" || f2 != fld || root(base) != entry {
+			return
+		}
+		ab := at.Block()
+		if (b == ab && instrIndexIn(in) > instrIndexIn(at)) || (b != ab && ab.Dominates(b)) {
+			found = true
+		}
+	})
+	return found
 }
